@@ -39,7 +39,7 @@ pub(super) enum Fk {
     Fork(Box<Fk>, Box<Fk>, Vec<usize>),
 }
 
-fn render_fk(f: &Fk, u: &U, s: &mut String) {
+pub(super) fn render_fk(f: &Fk, u: &U, s: &mut String) {
     match f {
         Fk::W(i) => s.push_str(WITNESS[*i]),
         Fk::Fork(l, r, t) => {
@@ -59,7 +59,7 @@ fn render_fk(f: &Fk, u: &U, s: &mut String) {
     }
 }
 
-fn eval_fk(f: &Fk, u: &U, active: &[u16]) -> usize {
+pub(super) fn eval_fk(f: &Fk, u: &U, active: &[u16]) -> usize {
     match f {
         Fk::W(i) => *i,
         Fk::Fork(l, r, t) => {
